@@ -154,6 +154,23 @@ func runC14(c *Ctx) {
 				viaG = map[string]bool{}
 			}
 		}
+		// every file starts with a few locals whose names begin with a reserved word (index, thenable, orbit, ...): a prefix
+		// of theirs can be exactly that word
+		{
+			files := sw.FileMap()
+			rk := r.Fork(0x6b7764)
+			for fi, f := range sw.Files {
+				var nms []string
+				for _, i := range rk.Perm(len(c14KeywordNames))[:4] {
+					nms = append(nms, fmt.Sprintf("%s%d", c14KeywordNames[i], fi))
+				}
+				files[f.Rel] = "local " + strings.Join(nms, ", ") + " = 1, 2, 3, 4\nprint(" + strings.Join(nms, ", ") + ")\n" + files[f.Rel]
+			}
+			if sw2, ok := ScopeWSFromFiles(files); ok {
+				sw2.Roots, sw2.Late = sw.Roots, sw.Late
+				sw = sw2
+			}
+		}
 		// a multi-root workspace: the files are spread over two workspace folders that lie next to each other
 		if len(sw.Files) >= 2 && r.Fork(0x726f6f74).Chance(1, 4) {
 			sw.Reroot([]string{"rootA", "rootB"})
@@ -206,12 +223,30 @@ func runC14(c *Ctx) {
 					continue
 				}
 				k := r.Range(2, len(target)-1) // a strict prefix: the probe word itself is a name use and gets offered back
+				// one probe in four has the cursor inside a complete identifier (the whole name is in the text, the cursor
+				// stands after its first k characters); for names that begin with a reserved word, k is often its length
+				word := ""
+				if r.Chance(1, 4) {
+					word = target
+					for _, kw := range c14KeywordNames {
+						if strings.HasPrefix(target, kw) && r.Bool() {
+							for _, w := range luaKeywordList {
+								if strings.HasPrefix(kw, w) && len(w) >= 2 && len(w) < len(target) {
+									k = len(w)
+								}
+							}
+						}
+					}
+				}
 				prefix := target[:k]
+				if word == "" {
+					word = prefix
+				}
 				// the expression context the prefix is typed in: call argument, operand glued to or spaced from an operator,
 				// table constructor, index, condition
 				ctx := c14Contexts[r.Intn(len(c14Contexts))]
 				at := strings.Index(ctx, "%s")
-				probe := ctx[:at] + prefix + ctx[at+2:]
+				probe := ctx[:at] + word + ctx[at+2:]
 				var newText string
 				var cursor int
 				cursor = st.Off + at + len(prefix)
@@ -281,6 +316,12 @@ func runC14(c *Ctx) {
 				// the probe word itself is a (free) name use in the document: not asserted either way
 				delete(must, prefix)
 				delete(mustNot, prefix)
+				if word != prefix {
+					c.Count("probes_with_cursor_inside_an_identifier", 1)
+					if luaKeywords[prefix] {
+						c.Count("probes_whose_prefix_is_a_reserved_word", 1)
+					}
+				}
 				// a name that is both (cannot happen with unique names, but stay safe)
 				for n := range must {
 					delete(mustNot, n)
@@ -366,3 +407,10 @@ func sortedBoolKeys(m map[string]bool) []string {
 	}
 	return ks
 }
+
+// names that begin with a reserved word
+var c14KeywordNames = []string{"android", "breaker", "done", "elsewhere", "ending", "falsey", "format", "functional", "gotox", "iffy", "index", "locale", "nilable",
+	"notice", "orbit", "repeater", "returned", "thenable", "truely", "untilx", "whiled"}
+
+var luaKeywordList = []string{"and", "break", "do", "else", "elseif", "end", "false", "for", "function", "goto", "if", "in", "local", "nil", "not", "or", "repeat", "return",
+	"then", "true", "until", "while"}
